@@ -115,6 +115,12 @@ def ob_rejected(kind):
     return f
 
 
+class _FailingTask(M.Task):
+    """the objective is undefined everywhere: optimize() raises during the initial population"""
+    def objective_function(self, x):
+        raise ArithmeticError("objective undefined here")
+
+
 class RecCfg:
     """stands for the caller's configuration object: attribute reads come from the validated values, every store is
     logged with the value it replaces"""
@@ -157,15 +163,17 @@ def ob_class(cname, window):
                 cfg = C(**d)
             except Exception:
                 return OK
-            before = cfg.model_dump()
-            try:
-                cls(cfg).optimize(_task())
-            except Exception:
-                pass
-            after = cfg.model_dump()
-            if before != after:
-                diff = {k: (before[k], after[k]) for k in before if before[k] != after[k]}
-                return Failure("configuration-differs-after-optimize", cls=cname, changed=diff)
+            for task in (_task(), _FailingTask(variables=_task().variables, seed=7)):          # returns / raises
+                before = cfg.model_dump()
+                try:
+                    cls(cfg).optimize(task)
+                except Exception:
+                    pass
+                after = cfg.model_dump()
+                if before != after:
+                    diff = {k: (before[k], after[k]) for k in before if before[k] != after[k]}
+                    return Failure("configuration-differs-after-optimize", cls=cname, changed=diff,
+                                   optimize="raised" if isinstance(task, _FailingTask) else "returned")
             return OK
         with env(rng_deny=False):
             try:
@@ -181,6 +189,13 @@ def ob_class(cname, window):
             died = None
             try:
                 o.before_initialization()
+                # the first evaluation may raise right here (optimize() has no try/finally around the hooks): what
+                # before_initialization stored is then what the caller keeps
+                pending = [(k, old, new) for (k, old, new) in rec._log if old != new]
+                if pending:
+                    k, old, new = pending[0]
+                    return Failure("store-into-the-configuration-outstanding-when-initialisation-may-fail", cls=cname,
+                                   field=k, old=old, new=new)
                 o._init_population()
                 (o._best_agent,), (o._worst_agent,) = H.special_agents(o._population, n_best=1, n_worst=1)
                 o.after_initialization()
